@@ -170,11 +170,12 @@ def leaseSpec (maxConn maxReq : Nat) (held : Nat) (spoiled : List Nat) (before :
   let openNow := before.openCount   -- the closing connection still counts: its close handler has not run
   match okConn res with
   | some c =>
-    !full && !fails && !spoiled.contains c && !before.live.contains c && closing != some c
+    -- (a dial that would fail is not made when an idle connection is reused)
+    !full && (!fails || c < before.conns.length) && !spoiled.contains c && !before.live.contains c && closing != some c
     && (c ≥ before.conns.length || (before.isOpen c && before.idle.contains c))
   | none =>
     if res == "ovf" then full || (maxConn != 0 && openNow ≥ maxConn)
-    else if res == "cf" then !full && fails
+    else if res == "cf" then !full && fails && before.idle.isEmpty
     else false
 
 structure Track where
